@@ -2,6 +2,7 @@ package svc
 
 import (
 	"errors"
+	"time"
 
 	"github.com/hslam/rpc"
 	"verif/harness/wire"
@@ -56,9 +57,20 @@ type JInt struct {
 	D int
 }
 
-// JBad cannot be encoded by encoding/json.
+// JBad cannot be encoded by encoding/json. With Slow set its encoding takes
+// a little (virtual) time before it fails, which opens the window between the
+// registration of a call and the write of its request.
 type JBad struct {
-	F func()
+	F    func()
+	Slow bool
+}
+
+// MarshalJSON implements json.Marshaler.
+func (b *JBad) MarshalJSON() ([]byte, error) {
+	if b.Slow {
+		time.Sleep(300 * time.Microsecond)
+	}
+	return nil, errors.New("JBad: cannot marshal")
 }
 
 // PMsg is the message type for the pb body codec (field 1, bytes). Its
@@ -135,16 +147,26 @@ func (m *PRaw) MarshalTo(b []byte) (int, error) { return copy(b, m.B), nil }
 func (m *PRaw) Unmarshal(b []byte) error { m.B = b; return nil }
 
 // PBad cannot be marshalled.
-type PBad struct{}
+type PBad struct{ Slow bool }
 
 // Size implements rpc.GoGoProtobuf.
 func (m *PBad) Size() int { return 4 }
 
 // Marshal implements rpc.GoGoProtobuf.
-func (m *PBad) Marshal() ([]byte, error) { return nil, errors.New("PBad: cannot marshal") }
+func (m *PBad) Marshal() ([]byte, error) {
+	if m.Slow {
+		time.Sleep(300 * time.Microsecond)
+	}
+	return nil, errors.New("PBad: cannot marshal")
+}
 
 // MarshalTo implements rpc.GoGoProtobuf.
-func (m *PBad) MarshalTo([]byte) (int, error) { return 0, errors.New("PBad: cannot marshal") }
+func (m *PBad) MarshalTo([]byte) (int, error) {
+	if m.Slow {
+		time.Sleep(300 * time.Microsecond)
+	}
+	return 0, errors.New("PBad: cannot marshal")
+}
 
 // Unmarshal implements rpc.GoGoProtobuf.
 func (m *PBad) Unmarshal([]byte) error { return nil }
@@ -186,10 +208,15 @@ func (m *CRaw) Marshal(buf []byte) ([]byte, error) { return append(buf[:0], m.B.
 func (m *CRaw) Unmarshal(b []byte) (uint64, error) { m.B = b; return uint64(len(b)), nil }
 
 // CBad cannot be marshalled.
-type CBad struct{}
+type CBad struct{ Slow bool }
 
 // Marshal implements rpc.Code.
-func (m *CBad) Marshal([]byte) ([]byte, error) { return nil, errors.New("CBad: cannot marshal") }
+func (m *CBad) Marshal([]byte) ([]byte, error) {
+	if m.Slow {
+		time.Sleep(300 * time.Microsecond)
+	}
+	return nil, errors.New("CBad: cannot marshal")
+}
 
 // Unmarshal implements rpc.Code.
 func (m *CBad) Unmarshal(b []byte) (uint64, error) { return 0, nil }
